@@ -34,7 +34,12 @@ def _horizon(run, cfg):
 
 
 def _listeners(visitor, cfg):
-    return visitor.listeners(cfg) if hasattr(visitor, "listeners") else ()
+    ls = list(visitor.listeners(cfg)) if hasattr(visitor, "listeners") else []
+    if cfg.get("console"):
+        # a shipped console listener rides along (its output is swallowed by the harness)
+        from iOpt.method.listener import ConsoleFullOutputListener
+        ls.append(ConsoleFullOutputListener(mode=cfg["console"], iters=3))
+    return ls
 
 
 def _first_new_depth(prefix):
@@ -159,7 +164,7 @@ def dev_answer(default_fn, alts, dev):
     return answer
 
 
-def run_dev(cfg, default_fn, alts, dev, h, visitor, batch=1, refine_at=None):
+def run_dev(cfg, default_fn, alts, dev, h, visitor, batch=1, refine_at=None, solve_at=None):
     """one complete execution of h trials in DoGlobalIteration(batch) calls; nodes after the last deviation are new"""
     run = make_run(cfg, dev_answer(default_fn, alts, dev), listeners=_listeners(visitor, cfg))
     visitor.begin(run, cfg)
@@ -186,6 +191,18 @@ def run_dev(cfg, default_fn, alts, dev, h, visitor, batch=1, refine_at=None):
             nodes += min(k, j - new_from + 1)
         for m in visitor.node(run, j, new) or ():
             msgs_all.append((j, m))
+        if solve_at is not None and j == solve_at:
+            # Solve() on a solver whose budget (itersLimit = solve_at) is already used up: no trial may be added, the
+            # listeners are told that the method stopped - and the step-wise search goes on afterwards
+            try:
+                run.solve()
+            except BaseException as e:
+                msgs_all.append((j, f"Solve raised {type(e).__name__}: {e} after trial {j}"))
+                return nodes, j, msgs_all
+            if len(run.problem.log) != j:
+                msgs_all.append((j, f"Solve on a solver with itersLimit={solve_at} and {j} trials made "
+                                    f"{len(run.problem.log) - j} further trials"))
+                return nodes, j, msgs_all
         if refine_at is not None and j == refine_at[0]:
             # a local refinement between two global iterations (public step-wise API); the search goes on afterwards
             try:
